@@ -37,6 +37,11 @@ def pipe_configs(ctx, emitted):
             for shape in ("", "fn5", "fnvar"):
                 items = [1, 2, 3]
                 out.append({"ns": ns, "cap": cap_, "items": items, "expected": [v + 10 * ns for v in items], "mode": "range", "elem": "int64", "goargs": False, "shape": shape})
+    # fan-out (spec/AnkoChanFan.tla): several workers range over ONE channel; every item exactly once, in any order
+    for w in (2, 3, 5):
+        for cap_ in (1, 2, 4):
+            for items in ([1, 2, 3], list(range(1, 41)), []):
+                out.append({"ns": w, "cap": cap_, "items": items, "expected": [v + 10 for v in items], "mode": "range", "elem": "int64", "goargs": False, "shape": "fan"})
     return out
 
 
@@ -72,6 +77,15 @@ def run(ctx):
         ctx.sample(smp)
     for m in (s.get("mismatches") or [])[:10]:
         vlib.violation(ctx, "%s: expected %s, got %s\n%s" % (m["what"], m["expected"], m["got"], m["src"]), {"kind": "seq", "case": m["case"], "src": m["src"], "expected": m["expected"], "got": m["got"]})
+    # fan-out design: model-checked (safety + liveness) with a wrong design as negative control
+    for cfgname, exp in (("MC_AnkoChanFan.cfg", None), ("MC_AnkoChanFan_w3.cfg", None), ("MC_AnkoChanFan_unbuf.cfg", None), ("MC_AnkoChanFan_neg.cfg", ("NeverMore", "ExactlyOnce"))):
+        r = vlib.run_tlc(ctx, "MC_AnkoChanFan", cfgname, workers=4, timeout=900, want_lines=False)
+        if exp is None:
+            vlib.tlc_ok(ctx, r, "MC_AnkoChanFan " + cfgname)
+            ctx.cov["states"] += r.distinct
+            ctx.cov["transitions"] += r.generated
+        else:
+            vlib.tlc_must_fail(ctx, r, "fan-out worker that forwards a zero after the input is closed must be refuted", expect=exp)
     # pipelines
     cfgs = pipe_configs(ctx, list(emitted.values()))
     if not cfgs:
